@@ -62,6 +62,9 @@ def run(ctx):
             cases.append(("combinedv", i, g, cfggen.lex_part(g) + "\n" + syntax_text(g), ["-a", "-v"]))
         cases.append(("nolexer", i, g, syntax_text(g), ["-a", "-no_lexer"]))
         cases.append(("lexonly", i, g, cfggen.lex_part(g), []))
+    # one grammar with 300 token ids: token type numbers beyond 255 (a narrower integer type anywhere in the chain would wrap)
+    bg = cfggen.big_cfg(rng, 300)
+    cases.append(("big", 0, bg, cfggen.lex_part(bg) + "\n" + syntax_text(bg), []))
     total = 0
     reported = 0
     hist = collections.Counter()
